@@ -620,11 +620,11 @@ Proof.
   pose proof (Z.div_pos (v_stoken (fst x)) stake_unit). pose proof unit_pos. lia.
 Qed.
 
-Lemma norm_iff v : norm v = v <-> (v_aid v = 0%nat /\ v_len v = 0%nat /\ v_deleted v = false).
+Lemma norm_iff v : norm v = v <-> (v_aid v = 0%nat /\ v_len v = 0%nat /\ v_deleted v = false /\ v_oid v = 0%nat).
 Proof.
-  destruct v; unfold norm, set_deleted, set_view; cbn. split.
+  destruct v; unfold norm, set_oid, set_deleted, set_view; cbn. split.
   - intros H; inversion H; auto.
-  - intros (-> & -> & ->); reflexivity.
+  - intros (-> & -> & -> & ->); reflexivity.
 Qed.
 
 Lemma goodV_nonneg_rest c a : GoodV c -> stat_nonneg (tot (adel (xs c) a)).
@@ -806,7 +806,7 @@ Qed.
 Lemma upd_ok_val a old l u : val_ok a (old, l) -> upd_ok old u = true -> val_ok a (apply_upd old u, l).
 Proof.
   intros (H1 & H2 & H3 & H4 & H5 & H6 & H7 & H8 & H9 & H10) Hu. cbn [fst snd] in *.
-  unfold upd_ok in Hu. apply norm_iff in H2 as (Ha & Hl & Hd).
+  unfold upd_ok in Hu. apply norm_iff in H2 as (Ha & Hl & Hd & Ho).
   unfold val_ok; cbn [fst snd].
   split; [exact H1|]. split; [apply norm_iff; cbn; auto|].
   split; [cbn; destruct (role_ok (u_role u)); [reflexivity|discriminate]|].
@@ -917,7 +917,7 @@ Lemma set_total_ok a v l tok stk l' :
   val_ok a (set_total v tok stk, l').
 Proof.
   intros (H1 & H2 & H3 & H4 & H5 & H6 & H7 & H8 & H9 & H10) Hl Ht Hs. cbn [fst snd] in *.
-  apply norm_iff in H2 as (Ha & Hlen & Hd).
+  apply norm_iff in H2 as (Ha & Hlen & Hd & Ho).
   unfold val_ok; cbn [fst snd].
   split; [exact H1|]. split; [apply norm_iff; cbn; auto|].
   split; [exact H3|]. split; [cbn; lia|]. split; [cbn; lia|]. split; [cbn; lia|]. split; [cbn; lia|].
@@ -1324,6 +1324,7 @@ Proof.
   intros HJ Hp. destruct o; cbn [a_step a_pre] in *.
   - apply J_push; [assumption|]. apply fund_sound, HJ.
   - apply J_push; [assumption|]. apply create_sound; [apply HJ|lia..].
+  - apply J_push; [assumption|]. apply update_sound; [apply HJ|assumption].
   - apply J_push; [assumption|]. apply update_sound; [apply HJ|assumption].
   - apply J_push; [assumption|]. apply remove_sound; [apply HJ|assumption].
   - apply J_push; [assumption|]. apply delegate_sound; [apply HJ|assumption].
